@@ -404,3 +404,12 @@ P("C08", STIM, "    window_start = int(i_delay / dt)\n    window_end = int((i_de
 # C20 column naming through rename
 P("C20", NW, '        pre_nodes = pre_nodes[["global_comp_index"]]\n        pre_nodes.columns = ["pre_global_comp_index"]', '        pre_nodes = pre_nodes[["global_comp_index"]].rename(columns={"global_comp_index": "pre_global_comp_index"})')
 B("C20", NW, '        pre_nodes = pre_nodes[["global_comp_index"]]\n        pre_nodes.columns = ["pre_global_comp_index"]', '        pre_nodes = pre_nodes[["global_comp_index"]].rename(columns={"global_comp_index": "post_global_comp_index"})', "R-C20-roles")
+
+# F11 (repaired): re-introduce the clipped exponential inside the declared bijections; stable equivalents stay silent
+B("C17", TF, "        return jax.nn.softplus(x) + self.lower", "        return jnp.log1p(jnp.exp(jnp.minimum(x, 20.0))) + self.lower", "R-C17-saturation")
+B("C17", TF, "        y = jax.nn.sigmoid(x)", "        y = 1.0 / (1.0 + jnp.exp(jnp.minimum(-x, 20.0)))", "R-C17-saturation")
+B("C17", TF, "        return z + jnp.log(-jnp.expm1(-z))", "        return z + jnp.log(-jnp.expm1(-jnp.minimum(z, 20.0)))", "R-C17-saturation")
+P("C17", TF, "        return jax.nn.softplus(x) + self.lower", "        return jnp.logaddexp(x, 0.0) + self.lower")
+P("C17", TF, "        y = jax.nn.sigmoid(x)", "        y = 1.0 / (1.0 + jnp.exp(-x))")
+P("C17", TF, "        return z + jnp.log(-jnp.expm1(-z))", "        return jnp.log(jnp.exp(z) - 1.0)")
+B("C17", TF, "        return z + jnp.log(-jnp.expm1(-z))", "        return z + jnp.log(jnp.expm1(-z))", "R-C17-inverse")
